@@ -92,15 +92,6 @@ def synchronized(func, *args, **kwargs):
         return [self, trial], {}
 
     def wrapped_func(*args, **kwargs):
-        # For backward compatible with the old end_trial signature:
-        # def end_trial(self, trial_id, status="COMPLETED"):
-        if func.__name__ == "end_trial" and (
-            "trial_id" in kwargs
-            or "status" in kwargs
-            or isinstance(args[1], str)
-        ):
-            args, kwargs = backward_compatible_end_trial(*args, **kwargs)
-
         oracle = args[0]
         thread_name = threading.currentThread().getName()
         need_acquire = THREADS[oracle] != thread_name
@@ -111,6 +102,15 @@ def synchronized(func, *args, **kwargs):
             lock.acquire()
             THREADS[oracle] = thread_name
         try:
+            # For backward compatible with the old end_trial signature:
+            # def end_trial(self, trial_id, status="COMPLETED"):
+            # The conversion reads the search space, so it runs under the lock.
+            if func.__name__ == "end_trial" and (
+                "trial_id" in kwargs
+                or "status" in kwargs
+                or isinstance(args[1], str)
+            ):
+                args, kwargs = backward_compatible_end_trial(*args, **kwargs)
             ret_val = func(*args, **kwargs)
         finally:
             if need_acquire:
